@@ -18,7 +18,9 @@ TECHNIQUE = ("history-based property testing: generated and exhaustively enumera
 RULE = ("a history is a list of queries (class, record, kind of record: CircularRecord / SeqRecord declared linear / SeqRecord declared circular) over the 85 concrete kit "
         "classes, generic classes and subclasses created inside the history (with "
         "and without an overriding signature); records are generated instances of "
-        "the classes involved, optionally mutated. The history runs in one os.fork()ed "
+        "the classes involved, optionally mutated, or a variant of another record with "
+        "one extra site at the same origin; the wrappers created by earlier queries "
+        "stay alive for the rest of the history. The history runs in one os.fork()ed "
         "child whose class state is pristine (the parent never validates); the "
         "oracle for every query is the same query run first in its own pristine "
         "fork: (is_valid, overhang_start, overhang_end, target) or the exception "
@@ -71,9 +73,13 @@ def _record(word, topo):
     return CircularRecord(Seq(word), id="r")
 
 
+_KEEP = []      # wrappers stay alive for the whole history (inside the child)
+
+
 def _query(cls, word, topo="c"):
     try:
         ent = cls(_record(word, topo))
+        _KEEP.append(ent)
         ok = ent.is_valid()
         if not ok:
             return [False]
@@ -233,6 +239,15 @@ def _histories(draw):
             import hypothesis
             hypothesis.reject()
         rec_classes.append(cn)
+    if draw(st.integers(0, 2)) == 0:
+        # a variant of the first record at the same origin: one extra site of
+        # the cutter inserted, so two structure candidates share offsets with it
+        g = kits.cutter_geometry(kits.resolve_class(rec_classes[0]))
+        w = words[0]
+        i = draw(st.integers(0, len(w)))
+        words.append(w[:i] + (g.site if draw(st.booleans()) else g.rsite) + w[i:])
+        rec_classes.append(rec_classes[0])
+        nrec += 1
     nq = draw(st.integers(2, 8))
     history = []
     for _ in range(nq):
